@@ -68,7 +68,7 @@ def _c10(tier, seed):
 
 
 def _c15(tier, seed):
-    ps = families.c15(tier, seed)
+    ps = [families.add_hash_twin(p) for p in families.c15(tier, seed)]
     cs = families.canaries_eq([p for p in ps if "PartialEq" in p.focus and not p.tags.get("no_verus")]) \
         + families.canaries_deref([p for p in ps if "DerefMut" in p.focus])
     return ps + _retag(cs, "C15")
